@@ -290,8 +290,38 @@ def _chunk(args):
 # (pattern, replacement, source, the source an ideal substitution is tree-equal to).  Shapes the model does not generate:
 # matched generator expressions that share the parentheses of their call (callee names of every ending), bound texts with
 # backslash escapes, replacements that only re-indent the matched lines (statements moved into / out of a block).
-def special_cases() -> List[Tuple[str, str, str, str]]:
+def geometry_cases() -> List[Tuple[str, str, str, str]]:
+    """Layouts of Geometry.tla (characters that str.splitlines counts as line ends but Python does not, multi-byte
+    characters, CR / CRLF line ends, in front of and on the line of the match) under substitution: exactly the call is
+    rewritten, wherever it stands."""
+    import c13
     out = []
+    fills = [[]] + [[{"sp": sp, "eol": eol}] for sp in ("none", "u2", "u4", "ff", "ls", "nel", "fs", "ps", "ffline") for eol in ("lf", "crlf")]
+    fills += [[{"sp": "ls", "eol": "lf"}, {"sp": "ffline", "eol": "lf"}], [{"sp": "u4", "eol": "cr"}, {"sp": "nel", "eol": "lf"}]]
+    for fill in fills:
+        for pre in ("absent", "none", "u2", "u4", "ff", "ls"):
+            for indent in (0, 4):
+                for node in ("call", "ucall", "multi", "paren"):
+                    for eol in ("lf", "crlf"):
+                        lay = {"fill": fill, "pre": pre, "indent": indent, "node": node, "trail": False, "eol": eol, "feol": eol}
+                        try:
+                            text, _ = c13.render(lay)
+                            seg = c13.cpython_segment(text, node)
+                        except (SyntaxError, ValueError):
+                            continue
+                        if not seg or text.count(seg) != 1 or not seg.startswith("f("):
+                            continue
+                        out.append(("f({{x}})", "g({{x}})", text, text.replace(seg, "g(" + seg[2:])))
+    return out
+
+
+def special_cases() -> List[Tuple[str, str, str, str]]:
+    out = geometry_cases()
+    # text that occurs in the source as a PIECE of an f-string (or as a format specification) and reads as an expression, and the
+    # same text as a string literal of the replacement: the literal stays a literal
+    for fstr, lit in (('f"{width}px"', '"px"'), ('f"{n:d}"', '"d"'), ('f"{a}42"', '"42"'), ('f"None{a}"', '"None"'), ('f"{a!r:>8}"', '">8"'),
+                      ("f'{a} and {b}'", '" and "'), ('f"{a}x" f"{b}y"', '"y"')):
+        out.append(("convert({{x}})", "convert({{x}}, " + lit + ")", f"label = {fstr}\nconvert(width)\n", f"label = {fstr}\nconvert(width, {lit})\n"))
     for callee in ("sum", "sum2", "np.float64", "math.atan2", "total_", "agg[0]", "mk()", "f"):
         out.append(("({{e}} for {{v}} in {{it}})", "list({{it}})", f"r = {callee}(v * v for v in xs)\nprint(r)\n", f"r = {callee}(list(xs))\nprint(r)\n"))
         out.append(("({{e}} for {{v}} in {{it}})", "[{{e}} for {{v}} in {{it}}]", f"r = {callee}(v + 1 for v in xs)\n", f"r = {callee}([v + 1 for v in xs])\n"))
